@@ -64,7 +64,7 @@ pub fn run(args: &Args) -> Report {
     if let Some(input) = &args.replay {
         texts.push((String::from_utf8_lossy(&unhex(input.split_whitespace().next().unwrap_or("-"))).into_owned(), "replay"));
     } else {
-        let n = if args.thorough { 3000 } else { 750 };
+        let n = if args.thorough { 15000 } else { 750 };
         for i in 0..n {
             let mut gm = gen_module(&g, &mut rng, "", 1 + i % 3, [20, 45, 70][i % 3], true);
             gm.resolve_refs(&mut rng, if i % 2 == 0 { 0 } else { 15 });
